@@ -99,6 +99,7 @@ class NP:
 
 class Arr:
     def __init__(self, n, ncol=1): self.shape = (SI(n), ncol)
+    def __len__(self): return int(unwrap(self.shape[0]))       # len() of an array is its number of rows (realises the symbolic length)
 
 
 class Ext:
@@ -156,7 +157,7 @@ def _malformed(G, B, n, nxt):
 
 def _rf_write_step(nxt: int, written: int, n: int, ns: Optional[int], continuous: bool, raw: int) -> bool:
     """
-    pre: 0 <= written <= nxt <= 4 and 0 <= n <= 2**20 and 0 <= raw <= 2**21
+    pre: 0 <= written <= nxt <= 4 and 0 <= n <= 2**20 and (raw == n or raw == 2 * n)
     pre: ns is None or 0 <= ns <= 6
     post: _
     """
